@@ -1009,6 +1009,10 @@ class SVG:
 
         remove = []
         for el, (shape,) in self._elements():
+            # the children of a clipPath are geometry, what they are painted with is
+            # irrelevant: fill="none" or opacity="0" there still clips
+            if any(strip_ns(a.tag) == "clipPath" for a in el.iterancestors()):
+                continue
             if not shape.might_paint():
                 remove.append(el)
 
